@@ -17,7 +17,7 @@ Inductive comp := CProducer | CPCons | CGroup | COffsets | CClient | CBroker.
      offsets   [ AutoCommit; Return.Errors; ChannelBufferSize; Retry.Max; number of POMs ]
      client    [ ]
      broker    [ connection was open ]
-   c_complete: the run was observed to its end (everything closed): completeness conditions apply. *)
+   c_complete: the run was observed to its end (everything closed); informational. *)
 Record case := { c_comp : comp; c_cfg : list nat; c_obs : list obs; c_complete : bool }.
 
 Definition cfgn (k : case) (i : nat) : nat := nth i (c_cfg k) 0.
@@ -33,7 +33,7 @@ Definition om_cfg (k : case) : OM.cfg :=
 
 Definition ok (k : case) : bool :=
   match c_comp k with
-  | CProducer => Prod.accepts (prod_cfg k) (c_obs k) && (negb (c_complete k) || Prod.complete (prod_cfg k) (c_obs k))
+  | CProducer => Prod.accepts (prod_cfg k) (c_obs k)
   | CPCons => PC.accepts (pc_cfg k) (cfgb k 2) (c_obs k)
   | CGroup => Grp.accepts (c_obs k)
   | COffsets => OM.accepts (om_cfg k) (c_obs k)
